@@ -182,6 +182,9 @@ mod alloc {
 pub use crate::receiver::{
     LocalSpans, PersistedMetadata, PersistedSpans, ReceiveError, TracingEventReceiver,
 };
+#[cfg(all(feature = "receiver", tracing_toolbox_verif))]
+#[doc(hidden)]
+pub use crate::receiver::verif;
 #[cfg(feature = "sender")]
 pub use crate::sender::TracingEventSender;
 #[cfg(feature = "std")]
